@@ -146,6 +146,8 @@ int sqfs_xattr_reader_load(sqfs_xattr_reader_t *xr, const sqfs_super_t *super,
 	}
 
 	/* create the meta data readers */
+	err = SQFS_ERROR_ALLOC;
+
 	xr->idrd = sqfs_meta_reader_create(file, cmp, super->id_table_start,
 					   super->bytes_used);
 	if (xr->idrd == NULL)
